@@ -10,14 +10,15 @@ from .common import AT4_API, AT5_API, SOCKET, fn_of
 
 LEVEL = "other"
 EXPLANATION = (
-    "Static analysis of the handshake state machine of both generations (extraction of the match statement of _message_received into a "
-    "transition table: pattern classes, guard state, extra guard atoms, next state, requests sent, calls): R1 following the table from "
-    "CONNECTING yields exactly six steps whose requests and awaited responses are version, names, AC ability, AC status, timer status, "
-    "zone/group status in that order, one request per step with the wrapper its registry requires, ending in the steady state with the "
-    "initialised event set; R2 every case that changes state or sends is guarded by a state equality and is not shadowed by an earlier case; "
-    "R3 the AT5 zero-zone echo cases require to_address == 0xB0 and the right state and advance exactly like their normal siblings; R4 init() "
-    "awaits the event for 5.0 s under TimeoutError suppression and returns event.is_set(); R5 model construction: one zone per names entry, "
-    "one AC per ability record, AT4 association by bitmap, then single-AC-gets-all, then range(start, start+count); AT5 range(start, start+count)."
+    "Static analysis of the handshake state machine of both generations (extraction of the match statement of _message_received into a transition"
+    " table: pattern classes, guard state, extra guard atoms, next state, requests sent, calls): R1 following the table from CONNECTING yields "
+    "exactly six steps whose requests and awaited responses are version, names, AC ability, AC status, timer status, zone/group status in that "
+    "order, one request per step with the wrapper its registry requires, ending in the steady state with the initialised event set; R2 every case"
+    " that changes state or sends is guarded by a state equality and is not shadowed by an earlier case; R3 the AT5 zero-zone echo cases require "
+    "to_address == 0xB0 and the right state and advance exactly like their normal siblings; R4 init() awaits the event for 5.0 s under "
+    "TimeoutError suppression and returns event.is_set(), nothing else is awaited before that wait except open_socket(), which itself never "
+    "awaits (a hanging TCP connect cannot outlast the 5 s); R5 model construction: one zone per names entry, one AC per ability record, AT4 "
+    "association by bitmap, then single-AC-gets-all, then range(start, start+count); AT5 range(start, start+count)."
 )
 ASSUMPTIONS = ["the socket delivers frames to _message_received one at a time (C07/C13)", "match statement first-match semantics"]
 FLOORS = {"C09.R1": 30, "C09.R2": 20, "C09.R3": 6, "C09.R4": 8, "C09.R5": 10}
